@@ -215,10 +215,34 @@ func RunText(text string, vars map[string]string, store numscript.Store, flags [
 			out.Panic = fmt.Sprintf("%v\n%s", r, debug.Stack())
 		}
 	}()
+	return runTextWarm(text, nil, nil, vars, store, flags)
+}
+
+// RunTextWarm is RunText preceded, on the same parse result, by an execution with other
+// variable values (against its own store) whose outcome is discarded. Execution is a pure
+// function of its inputs, so the earlier execution must not matter; values remembered from
+// it (caches keyed by syntax nodes, values modified in place) show as a wrong result of the
+// execution under test.
+func RunTextWarm(text string, warm map[string]string, warmStore numscript.Store, vars map[string]string, store numscript.Store, flags []string) Real {
+	return runTextWarm(text, warm, warmStore, vars, store, flags)
+}
+
+func runTextWarm(text string, warm map[string]string, warmStore numscript.Store, vars map[string]string, store numscript.Store, flags []string) (out Real) {
+	defer func() {
+		if r := recover(); r != nil {
+			out.Panic = fmt.Sprintf("%v\n%s", r, debug.Stack())
+		}
+	}()
 	pr := numscript.Parse(text)
 	if n := len(pr.GetParsingErrors()); n != 0 {
 		out.ParseErrors = n
 		return
+	}
+	if warm != nil {
+		func() {
+			defer func() { _ = recover() }()
+			_, _ = pr.RunWithFeatureFlags(context.Background(), copyVars(warm), warmStore, FlagSet(flags))
+		}()
 	}
 	res, err := pr.RunWithFeatureFlags(context.Background(), copyVars(vars), store, FlagSet(flags))
 	if err != nil {
@@ -232,6 +256,11 @@ func RunText(text string, vars map[string]string, store numscript.Store, flags [
 // RunInternal calls interpreter.RunProgram directly: the public wrapper discards the
 // result when an error is returned, so atomicity has to be observed here.
 func RunInternal(text string, vars map[string]string, store numscript.Store, flags []string) (out Real) {
+	return RunInternalWarm(text, nil, nil, vars, store, flags)
+}
+
+// RunInternalWarm: as RunTextWarm, on interpreter.RunProgram.
+func RunInternalWarm(text string, warm map[string]string, warmStore numscript.Store, vars map[string]string, store numscript.Store, flags []string) (out Real) {
 	defer func() {
 		if r := recover(); r != nil {
 			out.Panic = fmt.Sprintf("%v\n%s", r, debug.Stack())
@@ -245,6 +274,12 @@ func RunInternal(text string, vars map[string]string, store numscript.Store, fla
 	fl := FlagSet(flags)
 	if fl == nil {
 		fl = map[string]struct{}{}
+	}
+	if warm != nil {
+		func() {
+			defer func() { _ = recover() }()
+			_, _ = verifapi.RunProgram(context.Background(), pr.Value, copyVars(warm), warmStore, fl)
+		}()
 	}
 	res, err := verifapi.RunProgram(context.Background(), pr.Value, copyVars(vars), store, fl)
 	if err != nil {
@@ -267,7 +302,23 @@ func RunInternal(text string, vars map[string]string, store numscript.Store, fla
 // Run runs a case (canonical print) against a fresh store of the given mode.
 func Run(ec *gen.ExecCase, mode string) (Real, *doubles.Store) {
 	st := doubles.New(mode, Content(ec))
-	return RunText(gen.PrintCanonical(ec.Script), ec.Vars, st, ec.Flags), st
+	return RunTextEC(ec, gen.PrintCanonical(ec.Script), st), st
+}
+
+// RunTextEC / RunInternalEC run the given text with the case's variables and flags, after
+// the case's warm-up execution if it has one.
+func RunTextEC(ec *gen.ExecCase, text string, store numscript.Store) Real {
+	if ec.Warm == nil {
+		return RunText(text, ec.Vars, store, ec.Flags)
+	}
+	return RunTextWarm(text, ec.Warm, doubles.New(doubles.Superset, Content(ec)), ec.Vars, store, ec.Flags)
+}
+
+func RunInternalEC(ec *gen.ExecCase, text string, store numscript.Store) Real {
+	if ec.Warm == nil {
+		return RunInternal(text, ec.Vars, store, ec.Flags)
+	}
+	return RunInternalWarm(text, ec.Warm, doubles.New(doubles.Superset, Content(ec)), ec.Vars, store, ec.Flags)
 }
 
 // ---- per-statement grouping through prefix runs
